@@ -4,8 +4,11 @@ import (
 	"context"
 	"encoding/json"
 	"fmt"
+	"math/rand"
 	"sort"
 	"strings"
+	"sync"
+	"time"
 
 	"github.com/orda-io/orda/client/pkg/model"
 	"go.mongodb.org/mongo-driver/bson"
@@ -13,6 +16,7 @@ import (
 	"vh/bed"
 	"vh/core"
 	"vh/crdt"
+	"vh/fakemongo"
 )
 
 func init() {
@@ -21,7 +25,7 @@ func init() {
 		MaxBatch: 150,
 		Level:   "exploration",
 		Workers: 16,
-		Rule: "seeded histories over 2-3 collections created in a FRESH store (collection-number allocation is part of the mechanism), overlapping keys and several clients per collection; after every request the store diff is partitioned by owner (collection number in -_-Datatypes / -_-Operations / -_-Snapshots / -_-Clients, name for user collections): a request issued under collection A may touch only A-owned documents; foreign requests (a client registered in A naming collection B; a client of A first sending a client message that names B - which must be refused without changing anything - and then asking for B's datatype; packs carrying the DUID of a datatype of B with every option-bit combination, sent by a client at sequence 1 and by one further along) must leave B-owned documents untouched and must not return operations of B; a REST patch may touch only the collection it names; the same key in two collections yields two datatypes, and the notifications a sync causes are published on <its own collection>/<key> with the id of that collection's datatype (never on the topic of the same key in another collection); ResetCollection(A) at random points removes every A-owned datatype, operation, snapshot and client document and the user collection A while the dump restricted to the other collections is identical; " +
+		Rule: "seeded histories over 2-3 collections created in a FRESH store (collection-number allocation is part of the mechanism; in every second case the collections are created at the same moment with delays injected at the allocation's database commands), overlapping keys and several clients per collection; after every request the store diff is partitioned by owner (collection number in -_-Datatypes / -_-Operations / -_-Snapshots / -_-Clients, name for user collections): a request issued under collection A may touch only A-owned documents; foreign requests (a client registered in A naming collection B; a client of A first sending a client message that names B - which must be refused without changing anything - and then asking for B's datatype; packs carrying the DUID of a datatype of B with every option-bit combination, sent by a client at sequence 1 and by one further along) must leave B-owned documents untouched and must not return operations of B; a REST patch may touch only the collection it names; the same key in two collections yields two datatypes, and the notifications a sync causes are published on <its own collection>/<key> with the id of that collection's datatype (never on the topic of the same key in another collection); ResetCollection(A) at random points removes every A-owned datatype, operation, snapshot and client document and the user collection A while the dump restricted to the other collections is identical; " +
 			"non-trivial = at least two collections hold the same key and at least one request crossed the collection boundary; distinct = hash of the step script",
 		Assumptions: []string{
 			"MongoDB is the in-memory stand-in; volatile timestamps are ignored in diffs",
@@ -131,11 +135,43 @@ func runC17(c *core.Case) *core.Result {
 	var cols []string
 	numToName := map[int32]string{}
 	for i := 0; i < ncol; i++ {
-		name := fmt.Sprintf("col%c", 'A'+i)
-		if err := b.CreateCollection(name); err != nil {
+		cols = append(cols, fmt.Sprintf("col%c", 'A'+i))
+	}
+	if c.Index%2 == 1 {
+		// the collections are created at the same moment (two administrators, two services
+		// starting up), with small delays injected at the database commands of the number
+		// allocation and of the collection documents; a creation that fails under that
+		// concurrency is repeated afterwards - what must hold is that the collections end up
+		// with numbers of their own
+		c.Step("CreateCollection of %v concurrently", cols)
+		var pmu sync.Mutex
+		prng := rand.New(rand.NewSource(r.Int63()))
+		b.DB.SetPlan(func(cmd *fakemongo.Cmd) fakemongo.Action {
+			if cmd.Coll == "-_-ColNumGenerator" || cmd.Coll == "-_-Collections" {
+				pmu.Lock()
+				d := time.Duration(prng.Intn(1500)) * time.Microsecond
+				pmu.Unlock()
+				return fakemongo.Action{Delay: d}
+			}
+			return fakemongo.Action{}
+		})
+		var wg sync.WaitGroup
+		for _, name := range cols {
+			wg.Add(1)
+			go func(name string) {
+				defer wg.Done()
+				defer func() { recover() }()
+				b.CreateCollection(name)
+			}(name)
+		}
+		wg.Wait()
+		b.DB.SetPlan(nil)
+		c.Count("concurrent_collection_creations", 1)
+	}
+	for _, name := range cols {
+		if err := b.CreateCollection(name); err != nil { // idempotent for a collection that exists
 			return c.Violation("create-collection", "CreateCollection(%s) failed: %v", name, err)
 		}
-		cols = append(cols, name)
 	}
 	for _, name := range cols {
 		n := b.CollectionNum(name)
